@@ -43,7 +43,7 @@ def run(ctx):
     # the same workflows under several configurations
     extra = []
     groups = []
-    for _ in range(ctx.budget(4, 40)):
+    for _ in range(ctx.budget(4, 30)):
         nodes = fakes.gen_nodes(rng)
         nj = sum(fakes.njobs(n) for n in nodes)
         grp = []
@@ -55,7 +55,7 @@ def run(ctx):
         groups.append((len(extra), len(grp)))
         extra += grp
     out, cases, obs, usable, bad = fakes.drive(
-        ctx, "c17", SPEC, ctx.budget(10, 300), ctx.budget(3, 40), ctx.budget(6, 200), RULE,
+        ctx, "c17", SPEC, ctx.budget(10, 150), ctx.budget(3, 30), ctx.budget(6, 200), RULE,
         "outputs differ from the reference evaluation of the workflow", fail_p=0.0, extra_cases=extra)
     base = len(cases) - len(extra)
     ngroups = 0
